@@ -206,19 +206,27 @@ small_vector<T, S> &small_vector<T, S>::operator=(const small_vector &rhs)
     }
     else  // !needs_memory
     {
+      // Elements on the heap past `end()` are raw memory: they must be
+      // constructed, not assigned to (and there is nothing to destroy).
+      const auto assigned(
+        std::is_trivially_default_constructible_v<T> || local_storage_used()
+        ? n : std::min(n, size()));
+
       if (!std::is_trivially_default_constructible_v<T>)
       {
         if (!local_storage_used())
-          destroy_range(begin() + n, end());
+          destroy_range(begin() + assigned, end());
 #if defined(VITA_SMALL_VECTOR_LOW_MEMORY)
-        else
+        else if (n < size())
           std::fill(begin() + n, end(), T());
 #endif
       }
 
-      size_ = begin() + n;
+      std::copy(rhs.begin(), rhs.begin() + assigned, begin());
+      vita::uninitialized_copy(rhs.begin() + assigned, rhs.end(),
+                               begin() + assigned);
 
-      std::copy(rhs.begin(), rhs.end(), begin());
+      size_ = begin() + n;
     }
 
     assert(size() == n);
